@@ -99,9 +99,9 @@ class Tr:
                                           "true" if op is C.MAX_REPEAT else "false", self.seq(p, flags))
         if op is C.SUBPATTERN:
             g, af, df, p = av
-            if af or df:
-                raise ValueError("inline flags are not supported")
-            return self.seq(p, flags) if g is None else "(.grp %d %s)" % (g, self.seq(p, flags))
+            # scoped inline flags `(?i:...)` / `(?-i:...)`: the character sets inside are resolved under the changed flags
+            nf = (flags | af) & ~df
+            return self.seq(p, nf) if g is None else "(.grp %d %s)" % (g, self.seq(p, nf))
         if op in (C.ASSERT, C.ASSERT_NOT):
             d, p = av
             lo, hi = p.getwidth()
